@@ -23,6 +23,7 @@ CONSTANTS
   UseTCP = FALSE
   ChanUnderLock = TRUE
   AckChanCheck = TRUE
+  Urgent = FALSE
 INVARIANTS TypeOK OneInFlight MutexHeld NoDupDelivery ClosedMeansClosed
 VIEW view
 CHECK_DEADLOCK FALSE
